@@ -18,3 +18,6 @@ CONSTANTS
   SAMPLE = 31
   STREAMLEN = 0
   TWOCOLOURS = FALSE
+  RING = 1
+  FILTERED = TRUE
+  STOREORIENT = TRUE
